@@ -3,7 +3,7 @@
     All statements quantify over every schedule (list of step labels, including further calls,
     stop() and start()), every worker count and every queue capacity. *)
 From Coq Require Import List Bool.
-From VB Require Import Conc.ValidatorDefs Conc.ValidatorProofs Conc.ValidatorProgress.
+From VB Require Import Conc.ValidatorDefs Conc.ValidatorProofs Conc.ValidatorProgress Conc.ValidatorTermination.
 Import ListNotations.
 
 (** whenever checkPopData has returned, its verdict is the sequential one: the index of the first
@@ -37,15 +37,27 @@ Theorem C16_released_on_return_v0_refuted :
 Proof. exact released_on_return_v0_refuted_lemma. Qed.
 Print Assumptions C16_released_on_return_v0_refuted.
 
-(** progress: while the pool runs and main is inside checkPopData some step is enabled.
-    _partial: enabledness only; that every fair schedule reaches the return (a termination measure)
-    is not proved *)
+(** progress: while the pool runs and main is inside checkPopData some main/worker step is enabled
+    (for every reachable state, including states reached through stop()/start()) *)
 Theorem C16_no_deadlock_partial : forall w c sched,
   let s := run false sched (init w c) in
   aborted s = false -> pst s = PRun -> quiescent_main (main s) = false ->
-  exists l s', step false l s = Some s'.
+  exists l s', inner l = true /\ step false l s = Some s'.
 Proof. exact no_deadlock_lemma. Qed.
 Print Assumptions C16_no_deadlock_partial.
+
+(** termination: as long as nobody stops the pool and calls fit the queue, from every reachable state main
+    can be driven out of checkPopData by at most [measure s] main/worker steps, and every accepted main/worker
+    step strictly decreases [measure] - no infinite sequence of enabled steps exists, so every schedule that
+    keeps taking enabled steps reaches the return *)
+Theorem C16_no_deadlock : forall w c sched,
+  forallb (sizes_ok c) sched = true ->
+  let s := run false sched (init w c) in
+  (exists cont, forallb inner cont = true /\ length cont <= measure s /\
+                quiescent_main (main (run false cont s)) = true) /\
+  (forall l s', inner l = true -> step false l s = Some s' -> measure s' < measure s).
+Proof. exact no_deadlock_full_lemma. Qed.
+Print Assumptions C16_no_deadlock.
 
 (** stop()/start() outside a call: every join succeeds immediately, breaks no promise, leaves nothing
     behind; start() then yields a fresh pool (to which all theorems above apply again) *)
